@@ -243,3 +243,110 @@ func VerifC04_Classification() {
 		vfReach("has-firing")
 	}
 }
+
+// VerifC04_History: 3 (quick) / 4 (thorough) successive flushes of one group over a
+// 2-alert universe through the real dedup and record stages and the real notification
+// log, the gap between flushes anywhere from a second to beyond the repeat interval
+// and a delivery that may fail (then nothing is recorded). At every flush the decision
+// equals the rule applied to the last *recorded* notification: notify iff a firing
+// alert is not in it, or there are no firing alerts left and it listed some, or a
+// newly resolved alert (send_resolved), or nothing changed for longer than the repeat
+// interval; never notify a group that has no firing alert and was never told about one.
+//
+//vf:quick unwind=16 decisions=400 paths=400000
+//vf:thorough unwind=16 decisions=600 paths=4000000
+//vf:expect reach=notified reach=suppressed reach=repeat reach=failed-delivery-retried reach=cycle-closed
+func VerifC04_History() {
+	sendResolved := vfBool("sendResolved")
+	repeat := vfSeconds("repeat", 60, 4*3600)
+	l, err := nflog.New(nflog.Options{Retention: 1000 * time.Hour, Metrics: prometheus.NewRegistry()})
+	if err != nil {
+		panic(err)
+	}
+	recv := &nflogpb.Receiver{GroupName: "r", Integration: "webhook", Idx: 0}
+	dedup := NewDedupStage(hRS04(sendResolved), l, recv)
+	setn := NewSetNotifiesStage(l, recv)
+	names := []string{"A", "B"}
+	ctx0 := WithGroupKey(context.Background(), "gk")
+	ctx0 = WithRepeatInterval(ctx0, repeat)
+
+	// reference: the last recorded notification
+	have := false
+	var lastF, lastR [2]bool
+	var lastAt time.Time
+	steps := 3 + vfTier()
+	for s := 0; s < steps; s++ {
+		now := vfNow()
+		var alerts []*alert.Alert
+		var curF, curR [2]bool
+		nF := 0
+		for i := range names {
+			switch vfChoice("state", 3) {
+			case 1:
+				a := hAlert04(names[i], 0, now)
+				a.EndsAt = time.Time{}
+				alerts = append(alerts, a)
+				curF[i] = true
+				nF++
+			case 2:
+				alerts = append(alerts, hAlert04(names[i], -time.Second, now))
+				curR[i] = true
+			}
+		}
+		if len(alerts) == 0 {
+			vfAdvance(vfSeconds("gap", 1, 5*3600))
+			continue // an empty group is not flushed
+		}
+		c, out, err := dedup.Exec(WithNow(ctx0, now), nil, alerts...)
+		vfAssert("dedup-ok", err == nil)
+		got := len(out) > 0
+
+		newFiring, newResolved, lastNF := false, false, 0
+		for i := range names {
+			if lastF[i] {
+				lastNF++
+			}
+			if curF[i] && !(have && lastF[i]) {
+				newFiring = true
+			}
+			if curR[i] && !(have && lastR[i]) {
+				newResolved = true
+			}
+		}
+		var want bool
+		switch {
+		case !have:
+			want = nF > 0
+		case newFiring:
+			want = true
+		case nF == 0:
+			want = lastNF > 0
+			if want {
+				vfReach("cycle-closed")
+			}
+		case sendResolved && newResolved:
+			want = true
+		default:
+			vfAssume(!lastAt.Equal(now.Add(-repeat)))
+			want = lastAt.Before(now.Add(-repeat))
+			if want {
+				vfReach("repeat")
+			}
+		}
+		vfAssert("decision-equals-rule-on-last-recorded-notification", got == want)
+		if got {
+			vfAssert("whole-batch-goes-out", len(out) == len(alerts))
+			vfReach("notified")
+			if vfBool("deliveryOK") {
+				_, _, err = setn.Exec(c, nil, out...)
+				vfAssert("recorded", err == nil)
+				have, lastF, lastR, lastAt = true, curF, curR, now
+			} else if s > 0 {
+				vfReach("failed-delivery-retried")
+			}
+		} else {
+			vfReach("suppressed")
+		}
+		vfAdvance(vfSeconds("gap", 1, 5*3600))
+	}
+}
